@@ -387,6 +387,8 @@ def _exec_fw(case, o: Outcome):
     model = [0] * init if isinstance(init, int) else list(init)
     if case.get("exact"):
         model = [Fraction(v) for v in model]  # exact reference (a Fraction compares exactly with a float)
+        if not _all_ranges_exact(model):
+            return  # outside the family (only reachable by shrinking): some range sum is not a double, nothing is claimed
     n = len(model)
     if not isinstance(init, int) and src != list(init):
         o.violate(PROP, "caller_list_modified", f"FenwickTree(values) changed the caller's list from {list(init)} to {src}", target="FenwickTree")
@@ -420,6 +422,8 @@ def _exec_fw(case, o: Outcome):
         if name == "update":
             ft.update(op[1], op[2])
             model[op[1]] += Fraction(op[2]) if case.get("exact") else op[2]
+            if case.get("exact") and not _all_ranges_exact(model):
+                return  # the history left the family (shrinking artefact): stop judging here
             if queried:
                 updated_after_query = True
         elif name == "prefix":
